@@ -63,6 +63,7 @@ def run(ctx):
         mod = ctx.mod(cfg)
         _pair(ctx, cfg, prog, mod)
         _gate(ctx, cfg, prog, mod)
+        _freshsrc(ctx, cfg, prog, mod)
         _mono(ctx, cfg, prog, mod)
     if ctx.tier == 'thorough':
         import c05
@@ -329,6 +330,12 @@ def _gate_edges(prog, mod, q, preds, _depth=0):
             if not from_creation:
                 descr.append('comparison at line %d does not use creation_generation' % s.line)
                 continue
+            mut_ = _hull_mutated(prog, mod)
+            tainted = sorted({_self_field(leaf[1][1]) for leaf in other if leaf[0] == 'place' and leaf[1][0] == 1 and
+                              _self_field(leaf[1][1]) in mut_})
+            if tainted:
+                descr.append('comparison at line %d also depends on %s, which is overwritten after construction' % (s.line, tainted))
+                continue
             if not s.place.is_local():
                 continue
             c = s.place.local
@@ -400,6 +407,118 @@ def _check_method(prog, mod, q, guarded, preds):
             bad.append('%s (line %d%s)' % (name, t.line, ', in closure' if inclosure else ''))
     return bad, {'gates': descr, 'ncalls': n}
 
+
+
+# ------------------------------------------------------------------------------------------ FRESHSRC
+INTERIOR_MUTATORS = ('store', 'swap', 'fetch_add', 'fetch_sub', 'fetch_max', 'fetch_min', 'fetch_update', 'compare_exchange',
+                     'compare_exchange_weak', 'compare_and_swap', 'set', 'get_or_init', 'get_or_try_init', 'take', 'replace',
+                     'rcu', 'get_mut', 'lock', 'write', 'borrow_mut')
+
+
+def _hull_bodies(prog):
+    for q, b in prog.bodies.items():
+        if '::tests::' in q or not b.file.startswith('src/'):
+            continue
+        r = b.root or q
+        if r.startswith(HULL + '::') or r.startswith('<' + HULL + ' as '):
+            yield q, b
+
+
+def _self_field(fields):
+    for f in fields:
+        if not f.startswith('^'):
+            return f
+    return None
+
+
+def _is_hull_ctor(prog, b):
+    rb = prog.bodies.get(b.root or b.q, b)
+    return 'ConvexHull<' in rb.locals[0] and not any('ConvexHull<' in rb.locals[i] for i in range(1, rb.nargs + 1))
+
+
+_HM = {}
+
+
+def _hull_mutated(prog, mod):
+    """hull field -> who stores into it after construction"""
+    if id(prog) in _HM:
+        return _HM[id(prog)]
+    mutated = {}
+    for q, b in _hull_bodies(prog):
+        if _is_hull_ctor(prog, b):
+            continue
+        al = mod.aliases(q)
+        selfs = [i for i in range(1, b.nargs + 1) if 'ConvexHull<' in b.locals[i]] or ([1] if b.kind == 'closure' else [])
+        for blk in b.blocks:
+            if blk.cleanup:
+                continue
+            for s in blk.stmts:
+                if s.kind != 'A':
+                    continue
+                root, fields, derefd = al.norm(s.place)
+                if derefd and root in selfs and fields:
+                    f = _self_field(fields)
+                    if f:
+                        mutated.setdefault(f, set()).add('%s (assignment)' % (b.root or q).rsplit('::', 1)[-1])
+            t = blk.term
+            if t.k == 'call' and (t.callee or t.resolved or '').rsplit('::', 1)[-1] in INTERIOR_MUTATORS and t.args:
+                tt = al.operand_target(t.args[0])
+                if tt is not None and tt[0] in selfs and tt[1]:
+                    f = _self_field(tt[1])
+                    if f:
+                        mutated.setdefault(f, set()).add('%s (%s)' % ((b.root or q).rsplit('::', 1)[-1],
+                                                                      (t.callee or t.resolved).rsplit('::', 1)[-1]))
+    _HM[id(prog)] = mutated
+    return mutated
+
+
+def _freshsrc(ctx, cfg, prog, mod):
+    """FRESHSRC: the hull side of the freshness test is *write-once* state.  A hull field is `mutated` when some
+    non-constructor hull function stores into it (assignment through `&mut self`, or an interior-mutability method -
+    store / swap / set / take ... - with the field as receiver).  The freshness predicates (generation-only bool helpers)
+    and the functions that compare generations directly must not read a mutated field: bookkeeping that a later call
+    can overwrite with the triangulation's current generation (the facet-cache generation) would make a stale hull look
+    fresh again."""
+    ctx.rule('FRESHSRC', 'the hull side of the freshness comparison reads only write-once hull state')
+    mutated = _hull_mutated(prog, mod)
+    ctx.info.setdefault('hull_fields_mutated_after_construction', {})[cfg] = {k: sorted(v) for k, v in mutated.items()}
+    gen_only = _generation_only(prog, mod)
+    n = 0
+    for q in sorted(gen_only):
+        bodies = [prog.bodies[q]] + [prog.bodies[c] for c in prog.children.get(q, []) if c in prog.bodies]
+        if prog.bodies[q].locals[0] != 'bool':
+            continue
+        n += 1
+        reads = set()
+        for b in bodies:
+            al = mod.aliases(b.q)
+            selfs = [i for i in range(1, b.nargs + 1) if 'ConvexHull<' in b.locals[i]] or ([1] if b.kind == 'closure' else [])
+            places = []
+            for blk in b.blocks:
+                if blk.cleanup:
+                    continue
+                for s in blk.stmts:
+                    if s.kind == 'A':
+                        places += [o.place for o in s.rv.ops if o.place is not None]
+                        if s.rv.place is not None:
+                            places.append(s.rv.place)
+                t = blk.term
+                if t.k == 'call':
+                    places += [o.place for o in t.args if o.place is not None]
+            for pl in places:
+                root, fields, derefd = al.norm(pl)
+                if root in selfs and fields:
+                    f = _self_field(fields)
+                    if f:
+                        reads.add(f)
+        bad = sorted(reads & set(mutated))
+        b0 = prog.bodies[q]
+        ctx.ob('FRESHSRC', q, cfg, not bad,
+               'hull fields read by the freshness predicate: %s; %s' % (sorted(reads), 'all write-once' if not bad else
+               'reads %s, which %s overwrite(s) after construction: once that bookkeeping is brought up to the triangulation\'s '
+               'current generation a stale hull answers queries' % (bad, sorted(set().union(*[mutated[f] for f in bad])))),
+               site='%s:%d' % (b0.file, b0.line))
+    ctx.floor('freshness predicates', 1, n, cfg)
 
 # ------------------------------------------------------------------------------------------ MONO
 
